@@ -12,7 +12,7 @@ def run(replay=None):
     import_hpl()
     rep = Report('C03')
     thorough = tier() == 'thorough'
-    asts, stats = accepted(thorough, limit=None if thorough else 6000, salt='c03')
+    asts, stats = accepted(thorough, limit=40000 if thorough else 6000, salt='c03')
     rep.add_tlc(stats)
     fams, st2 = accepted_families(['quants', 'slots', 'funs', 'incl', 'bool1w', 'alias', 'cmp11', 'clash'], cap=None if thorough else 400, salt='c03f')
     rep.add_tlc(st2)
@@ -43,7 +43,7 @@ def run(replay=None):
             for x in firsts:
                 log(name, text, x)
             # depth 2 (sampled in quick)
-            if thorough or rnd.random() < 0.25:
+            if rnd.random() < (0.5 if thorough else 0.25):
                 for x in firsts:
                     for name2, thunk2 in applicable(x):
                         out2, r2 = run_call(thunk2)
